@@ -428,6 +428,45 @@ class Program:
 
 # ------------------------------------------------------------------------------------------------
 
+def is_zst(v):
+    """is the value zero-sized (a fn item, or a closure / parser object capturing only such values)?"""
+    t = type(v)
+    if t is FnItem:
+        return True
+    if t is Closure or t is Tup:
+        return all(is_zst(x) for x in v.fields)
+    if t is Opaque and v.kind == 'Parser':
+        return all(is_zst(x) for x in _flat(v.data.args))
+    return False
+
+
+def _flat(args):
+    for a in args:
+        if isinstance(a, (list, tuple)):
+            for x in _flat(a):
+                yield x
+        else:
+            yield a
+
+
+def fifo_put(frame, key, v):
+    if is_zst(v):
+        frame.setdefault(key, [0, []])[1].append(v)
+
+
+def fifo_take(frame, key):
+    """next not yet consumed value created under `key` in this activation (the last one again when
+    all are consumed: loops re-use the same zero-sized parser)"""
+    e = frame.get(key)
+    if not e or not e[1]:
+        return None
+    i, q = e
+    if i < len(q):
+        e[0] = i + 1
+        return q[i]
+    return q[-1]
+
+
 class PathResult:
     __slots__ = ('decisions', 'pc', 'outcome', 'value', 'panic', 'obligations', 'steps', 'notes', 'model')
 
@@ -573,7 +612,7 @@ class Interp:
                 return lst, i
             if t is Opaque and v.kind == 'LocatedSpan':
                 # nom_locate::LocatedSpan { offset, line, fragment, extra }: only `extra` is a public field
-                return v.data.setdefault('_fields', [v.data.get('off'), v.data.get('line'), None, Struct('SpanInfo', [])]), p[2]
+                return v.data.setdefault('_fields', [v.data.get('off'), v.data.get('line'), None, Struct('SpanInfo', [Opaque('RecursiveInfo', {})])]), p[2]
             if t is VecV or t is StringV or t is Opaque or t is PathV:
                 raise Inconclusive('field projection into std container %s' % type(v).__name__)
             raise Inconclusive('field projection on %r' % (v,))
@@ -682,11 +721,8 @@ class Interp:
             sp = name[12:-1]
             fr = self.frames[-1] if self.frames else None
             if fr is not None:
-                q = fr.get(sp)
-                if q:
-                    v = q[0]
-                    if len(q) > 1:
-                        q.pop(0)
+                v = fifo_take(fr, sp)
+                if v is not None:
                     return v
             return Closure(sp, [])
         if name.startswith('ZeroSized: '):
@@ -754,6 +790,9 @@ class Interp:
             a = ord(a.c)
         if type(b) is Char:
             b = ord(b.c)
+        if type(a) is Opaque and type(b) is Opaque and name in ('Eq', 'Ne'):
+            same_ = (a.kind == b.kind and a.data == b.data)
+            return same_ if name == 'Eq' else not same_
         if name == 'Eq':
             if not sym and type(a) is not type(b) and not (isinstance(a, int) and isinstance(b, int)):
                 raise Inconclusive('Eq on %r %r' % (a, b))
@@ -993,7 +1032,7 @@ class Interp:
                     if ret is None:
                         raise Inconclusive('diverging call returned: %s' % (callee,))
                     if type(r) is Closure:
-                        self.frames[-1].setdefault(r.span, []).append(r)
+                        fifo_put(self.frames[-1], r.span, r)
                     if dest[0] == 'local':
                         L[dest[1]] = r
                     else:
@@ -1092,6 +1131,9 @@ class Explorer:
                 r.panic = {'msg': e.msg, 'where': e.where}
             except PathInfeasible:
                 r.outcome = 'infeasible'
+            except StepLimit:
+                r.outcome = 'infeasible'
+                self.truncated = True
             r.decisions = list(it.decisions)
             r.pc = list(it.pc)
             r.obligations = it.obligations
